@@ -38,6 +38,11 @@ let handle cmd =
     str_cost (dist_model u s1 s2)
   | "pydistp" -> let b = nint () in let u = rd_usettings () in let s1 = rd_series () in let s2 = rd_series () in
     str_cost (distp_model u s1 s2 (if b < 0 then Inf else Fin (z_of_int b)))
+  | "pywps" -> let b = nint () in let fc = nint () = 1 in
+    let u = rd_usettings () in let s1 = rd_series () in let s2 = rd_series () in
+    (match wps_code_model u s1 s2 (if b < 0 then Inf else Fin (z_of_int b)) fc with
+     | None -> "none"
+     | Some (d, m) -> str_cost d ^ " | " ^ str_matrix m)
   | "wps" -> let u = rd_usettings () in let s1 = rd_series () in let s2 = rd_series () in
     str_matrix (wps_matrix u s1 s2)
   | "bp" -> let u = rd_usettings () in let s1 = rd_series () in let s2 = rd_series () in
